@@ -21,13 +21,13 @@ class ModelDiverges(Exception):
 
 
 class CoroRef:
-    DEFAULTS = {"marker": 0, "acc": 0, "q": 0, "r": 0, "nd": None, "nr": 3, "orr": 0}
+    DEFAULTS = {"marker": 0, "acc": 0, "q": 0, "r": 0, "nd": None, "nr": 3, "orr": 0, "ps": 5}
     NORESET = {"nr"}
 
     def __init__(self, prog):
         self.prog = prog
         rst = prog.get("reset") or {}
-        self.OUTS = ("marker", "acc", "q", "r") + (("nd", "nr") if rst.get("extra_ports") else ()) + (("orr",) if rst.get("on_reset") else ())
+        self.OUTS = ("marker", "acc", "q", "r") + (("nd", "nr") if rst.get("extra_ports") else ()) + (("orr",) if rst.get("on_reset") else ()) + (("ps",) if prog.get("push") else ())
         self.on_reset = bool(rst.get("on_reset"))
         self.subs = {s["name"]: s["body"] for s in prog["subs"]}
         self.var_init = dict(prog["vars"])
@@ -63,6 +63,9 @@ class CoroRef:
         self.inp = inputs
         self.steps_without_yield = 0
         self.sites = []
+        if "ps" in self.sig:
+            # a pushed signal carries the pushed value for exactly one step, its default otherwise
+            self.pend["ps"] = self.DEFAULTS["ps"]
         next(self.gen)
         self.sig.update(self.pend)
         self.pend = {}
@@ -122,6 +125,9 @@ class CoroRef:
                 self.fresh = False
             elif k == "var":
                 self.vars[s[1]] = self.ev(s[2])
+                self.fresh = False
+            elif k == "push":
+                self.pend["ps"] = self.ev(s[1])
                 self.fresh = False
             elif k == "mark":
                 self.pend["marker"] = s[1]
